@@ -40,7 +40,7 @@ def prepare():
 def budgets(tier):
     if tier == 'quick':
         return dict(shards=16, examples=100)
-    return dict(shards=16, examples=2500, deadline_s=3000)
+    return dict(shards=16, examples=7500, deadline_s=3000)
 
 
 @st.composite
